@@ -482,6 +482,13 @@ class LayoutHandler(LayoutManager):
         """
         return tuple(self._subcomms)
 
+    @property
+    def hasData(self):
+        """ Indicates whether the grids have any points. This is not the
+        case on a process which is only here for plotting purposes
+        """
+        return self._has_data
+
     def getLayout(self, name: str):
         """ Return the requested layout
         """
@@ -1265,7 +1272,7 @@ class LayoutSwapper(LayoutManager):
 
         """
         # If this thread is only here for plotting purposes then ignore the command
-        if (self._buffer_size == 0):
+        if (not any(m.hasData for m in self._managers)):
             return
 
         # Verify that the input makes sense
